@@ -1,5 +1,5 @@
 (* C17 - property theorems only. *)
-From HV Require Import Prelude PearsonQ C17_Model C17_Check C17_Proofs.
+From HV Require Import Prelude PearsonQ C17_Model C17_Check C17_Proofs C17_ProofsExact.
 From Coq Require Import QArith.
 Open Scope Z_scope.
 
@@ -56,3 +56,110 @@ Theorem C17_pearson_r2_range :
   forall l r, pearson_r2 l = Some r -> (0 <= r <= 1)%Q.
 Proof. exact pearson_r2_in_01. Qed.
 Print Assumptions C17_pearson_r2_range.
+
+(* Exact LD.  When no sample is doubly heterozygous (n11 = 0) the admissible interval
+   [minhap, maxhap] is the single point num_alt/2n; it is a root of the cubic that
+   ComputeExactLD solves ... *)
+Theorem C17_exact_root_no_double_het :
+  forall t, ~ (t_n t == 0)%Q -> (n11 t == 0)%Q -> (cubic t (minhap t) == 0)%Q.
+Proof. exact exact_root. Qed.
+Print Assumptions C17_exact_root_no_double_het.
+
+(* ... and the r^2 formula evaluated there is the r^2 of the 2x2 haplotype table the
+   genotypes determine (both variants polymorphic). *)
+Theorem C17_exact_r2_is_haplotype_r2 :
+  forall t, ~ (t_n t == 0)%Q -> (n11 t == 0)%Q ->
+  ~ (hm_c0 t == 0)%Q -> ~ (hm_c1 t == 0)%Q -> ~ (hm_i0 t == 0)%Q -> ~ (hm_i1 t == 0)%Q ->
+  (exact_r2 (t_p t) (t_q t) (minhap t) == hap_r2 t)%Q.
+Proof. exact exact_r2_hap. Qed.
+Print Assumptions C17_exact_r2_is_haplotype_r2.
+
+(* For every 3x3 table of non-negative counts with both variants polymorphic and every
+   f00 in the admissible interval, the r^2 formula of _CalcLDStats lies in [0,1]. *)
+Theorem C17_exact_r2_range :
+  forall t f, tab_nonneg t -> (0 < t_n t)%Q ->
+  (0 < t_p t * (1 - t_p t) * t_q t * (1 - t_q t))%Q ->
+  (minhap t <= f <= maxhap t)%Q ->
+  (0 <= exact_r2 (t_p t) (t_q t) f <= 1)%Q.
+Proof. exact exact_r2_range_tab. Qed.
+Print Assumptions C17_exact_r2_range.
+
+(* the hypotheses are satisfiable: 2 samples 0|0 / 0|0, 1 sample 0|1 / 0|0 ... *)
+Example C17_exact_example :
+  let t := mkt 2 1 0 1 0 1 0 1 2 in
+  (Qeq_bool (cubic t (minhap t)) 0 && Qeq_bool (exact_r2 (t_p t) (t_q t) (minhap t)) (hap_r2 t)
+   && Qle_bool (exact_r2 (t_p t) (t_q t) (minhap t)) 1 && negb (Qeq_bool (hap_r2 t) 0)) = true.
+Proof. vm_compute. reflexivity. Qed.
+Print Assumptions C17_exact_example.
+
+(* The model of clumpstr as a whole (tables, genotype lookup, Pearson r2 of the samples
+   without missing calls, constant columns giving NaN) never runs out of the fuel it is
+   given: one unit per variant of the two tables. *)
+Theorem C17_clumpstr_terminates :
+  forall k, clumpstr pearson_oracle k <> Err E_Timeout.
+Proof. exact clumpstr_terminates. Qed.
+Print Assumptions C17_clumpstr_terminates.
+
+(* The boolean checker evaluated on the rows of the .clump file means the property:
+   index = not-yet-clumped, eligible, minimal p, first in file order among ties; members =
+   exactly the not-yet-clumped variants in the window that pass the r2 test (as a set,
+   without repetition); stops only when nothing is eligible. *)
+Theorem C17_greedy_okb_sound :
+  forall p1 kb pb obs st, greedy_okb p1 kb pb st obs = true -> greedy_ids p1 kb pb st obs.
+Proof. exact greedy_okb_sound. Qed.
+Print Assumptions C17_greedy_okb_sound.
+
+(* ... and the model's output satisfies that same specification *)
+Theorem C17_model_meets_checker_spec :
+  forall p1 kb pb fuel stats cl,
+  NoDup (map sv_id stats) ->
+  clump_loop fuel p1 kb (fun iv c => Ok (pb iv c)) stats = Ok cl ->
+  greedy_ids p1 kb pb stats (ids_of cl).
+Proof. intros. apply greedy_to_ids; [assumption|]. eapply clump_loop_greedy. eassumption. Qed.
+Print Assumptions C17_model_meets_checker_spec.
+
+(* Only variants not above the inclusion threshold are ever loaded ... *)
+Theorem C17_load_not_above_p2 :
+  forall ks kp kc kq p2 ty rows l,
+  load_rows ks kp kc kq p2 ty rows = Ok l -> Forall (fun v => (sv_p v <= p2)%Q /\ sv_type v = ty) l.
+Proof. exact load_rows_below_p2. Qed.
+Print Assumptions C17_load_not_above_p2.
+
+(* ... and the loaded table depends only on the cells under the four named columns,
+   whatever their position (any column order, any further columns). *)
+Theorem C17_load_column_order_irrelevant :
+  forall ks kp kc kq ks' kp' kc' kq' p2 ty rows rows',
+  Forall2 (fun r r' => (r = [] <-> r' = []) /\
+                       nth_error r ks = nth_error r' ks' /\ nth_error r kp = nth_error r' kp' /\
+                       nth_error r kc = nth_error r' kc' /\ nth_error r kq = nth_error r' kq') rows rows' ->
+  load_rows ks kp kc kq p2 ty rows = load_rows ks' kp' kc' kq' p2 ty rows'.
+Proof. exact load_rows_columns. Qed.
+Print Assumptions C17_load_column_order_irrelevant.
+
+(* GetOverlappingSamples pairs only indices that name the same sample in the two files *)
+Theorem C17_overlapping_same_sample :
+  forall snp_names str_names i j,
+  In (i, j) (overlapping snp_names str_names) ->
+  exists s, nthZ snp_names i = Some s /\ nthZ str_names j = Some s.
+Proof. exact overlapping_same_sample. Qed.
+Print Assumptions C17_overlapping_same_sample.
+
+(* what the ComputeLD checker establishes about a returned r2: Pearson - within 1e-9 of the
+   squared correlation of the dosages over the samples with no missing call at either variant
+   (NaN iff NaN); Exact - in [0,1], and within 1e-6 of the haplotype-table r2 when no sample is
+   doubly heterozygous *)
+Theorem C17_holds_computeld_sound :
+  forall d o,
+  d_obs d = Ok o -> filter_gts (d_cand d) (d_idx d) <> [] -> holds_computeld d = true ->
+  let l := filter_gts (d_cand d) (d_idx d) in
+  if d_exact d then
+    dosage012 l = true -> constantb fx l || constantb fy l = false ->
+    exists v, o = Some v /\ (0 <= v <= 1)%Q /\
+              (Qeq_bool (n11 (table_of l)) 0 = true ->
+               (v - hap_r2 (table_of l) <= tol_exact /\ hap_r2 (table_of l) - v <= tol_exact)%Q)
+  else match pearson_r2 l, o with
+       | None, None => True
+       | Some v, Some w => (w - v <= tol_pearson /\ v - w <= tol_pearson)%Q
+       | _, _ => False end.
+Proof. exact holds_computeld_sound. Qed.
+Print Assumptions C17_holds_computeld_sound.
